@@ -162,3 +162,61 @@ def morton_ref(grid, pos):
                 code |= ((pos[d] >> i) & 1) << j
                 j += 1
     return code
+
+
+def run_sessions(workdir, cfg, hist, salt=0, cs=4):
+    """Replay a multi-session history (store / dup / close / reopen events of
+    spec/ShardSessions.tla) on real accessor objects; returns the observed
+    outcome of every duplicate store and the set of positions a fresh reader
+    can fetch (non-empty bytes equal to the LAST payload stored for them)."""
+    from neuroglancer_scripts import sharded_file_accessor as sfa
+    grid = cfg["grid"]
+    sizes = [g * cs - (1 if g > 1 else 0) for g in grid]
+    info = make_info(grid, cs, cfg["pb"], cfg["mb"], cfg["sb"], "raw", sizes)
+    d = tempfile.mkdtemp(prefix="ms_", dir=workdir)
+    with open(os.path.join(d, "info"), "w") as f:
+        json.dump(info, f)
+    old_tmp = tempfile.tempdir
+    tempfile.tempdir = workdir
+    dups, last = [], {}
+    gen = 0
+    try:
+        with contextlib.redirect_stdout(io.StringIO()):
+            acc = sfa.ShardedFileAccessor(d, strategy="in memory")
+            for ev in hist:
+                kind = ev[0]
+                if kind in ("store", "dup"):
+                    pos = tuple(ev[1])
+                    gen += 1
+                    pay = payload_for(pos, "%s/%d" % (salt, gen))
+                    try:
+                        acc.store_chunk(pay, KEY, coords_of(pos, cs, sizes))
+                        last[pos] = pay
+                        if kind == "dup":
+                            dups.append("replaced")
+                    except RuntimeError:
+                        dups.append("raised")
+                    except Exception as e:
+                        dups.append("other:" + type(e).__name__)
+                elif kind == "close":
+                    acc.close()
+                elif kind == "reopen":
+                    atexit.unregister(acc.close)
+                    acc = sfa.ShardedFileAccessor(d, strategy="in memory")
+            atexit.unregister(acc.close)
+            rd = sfa.ShardedFileAccessor(d)
+            visible = []
+            for pos in all_pos(grid):
+                try:
+                    b = rd.fetch_chunk(KEY, coords_of(pos, cs, sizes))
+                    if b and last.get(tuple(pos)) == bytes(b):
+                        visible.append(list(pos))
+                    elif b:
+                        visible.append(list(pos) + ["stale"])
+                except Exception:
+                    pass
+            atexit.unregister(rd.close)
+    finally:
+        tempfile.tempdir = old_tmp
+        shutil.rmtree(d, ignore_errors=True)
+    return {"dups": dups, "visible": sorted(visible)}
